@@ -317,40 +317,44 @@ impl<T, Codec, const BUFFER: usize, const MAX_ITEM_SIZE: usize> Receiver<T, Code
             return Ok(0);
         }
 
-        let mut send_req_buf = Vec::with_capacity(limit);
-        let n = self.inner.as_mut().unwrap().rx.recv_many(&mut send_req_buf, limit).await;
+        loop {
+            let mut send_req_buf = Vec::with_capacity(limit);
+            let n = self.inner.as_mut().unwrap().rx.recv_many(&mut send_req_buf, limit).await;
 
-        if n == 0 {
-            match self.take_error() {
-                Some(err) => return Err(err),
-                None => return Ok(0),
-            }
-        }
-
-        let mut p = 0;
-        let mut item_err = None;
-        for send_req in send_req_buf {
-            match send_req.ack() {
-                Ok(value_opt) => {
-                    buffer.push(value_opt);
-                    p += 1;
+            if n == 0 {
+                match self.take_error() {
+                    Some(err) => return Err(err),
+                    None => return Ok(0),
                 }
-                Err(err) => {
-                    if err.is_final() {
-                        if self.final_err.is_none() {
-                            self.final_err = Some(err);
+            }
+
+            let mut p = 0;
+            let mut item_err = None;
+            for send_req in send_req_buf {
+                match send_req.ack() {
+                    Ok(value_opt) => {
+                        buffer.push(value_opt);
+                        p += 1;
+                    }
+                    Err(err) => {
+                        if err.is_final() {
+                            if self.final_err.is_none() {
+                                self.final_err = Some(err);
+                            }
+                        } else if item_err.is_none() {
+                            // The rest of the batch has already left the queue and must still be delivered.
+                            item_err = Some(err);
                         }
-                    } else if item_err.is_none() {
-                        // The rest of the batch has already left the queue and must still be delivered.
-                        item_err = Some(err);
                     }
                 }
             }
-        }
 
-        match item_err {
-            Some(err) => Err(err),
-            None => Ok(p),
+            match item_err {
+                Some(err) => return Err(err),
+                // The batch consisted of held back errors only, the channel has not been closed.
+                None if p == 0 => (),
+                None => return Ok(p),
+            }
         }
     }
 
